@@ -40,6 +40,7 @@
 __attribute__((weak)) size_t verif_enum_count(const char *tier) { (void)tier; return 0; }
 __attribute__((weak)) size_t verif_enum_case(size_t i, uint8_t *b, size_t c) { (void)i; (void)b; (void)c; return 0; }
 __attribute__((weak)) void verif_init(void) {}
+__attribute__((weak)) int verif_nondeterministic = 0;	/* real threads / real time: a failing case may not reproduce on every re-run */
 
 struct failrec {
 	uint64_t index;		/* case index (enum cases: index | ENUM_BIT) */
@@ -646,7 +647,7 @@ int main(int argc, char **argv)
 	for (uint64_t i = 0; i < nh; i++) if (i == 0 || all[i] != all[i - 1]) distinct++;
 
 	/* ---- failures: group by signature, confirm, shrink, save */
-	struct { char sig[96]; char msg[1024]; char path[700]; int confirmed; int count; uint64_t index; size_t size; int hang; } groups[16];
+	struct { char sig[96]; char msg[1024]; char path[700]; int confirmed; int count; uint64_t index; size_t size; int hang; uint64_t cand[6]; int ncand; } groups[16];
 	int ng = 0;
 	uint8_t *buf = malloc(verif_max_size + 16), *best = malloc(verif_max_size + 16);
 	for (int k = 0; k < g_workers; k++) for (uint64_t j = 0; j < W[k].nfails; j++) {
@@ -659,9 +660,11 @@ int main(int argc, char **argv)
 			memset(&groups[g], 0, sizeof groups[g]);
 			memcpy(groups[g].sig, f->sig, 96); memcpy(groups[g].msg, f->msg, 1024);
 			groups[g].index = f->index; groups[g].size = n; groups[g].hang = f->hang; ng++;
+			groups[g].cand[0] = f->index; groups[g].ncand = 1;
 		} else if (n < groups[g].size) {
 			groups[g].index = f->index; groups[g].size = n; memcpy(groups[g].msg, f->msg, 1024);
 		}
+		else if (groups[g].ncand < 6) groups[g].cand[groups[g].ncand++] = f->index;
 		groups[g].count++;
 	}
 	int violations = 0, flaky = 0;
@@ -669,7 +672,21 @@ int main(int argc, char **argv)
 		size_t n = get_case(groups[g].index, best, verif_max_size);
 		int ok = 0;
 		for (int t = 0; t < 3; t++) ok += fails_same(best, n, NULL);
-		groups[g].confirmed = ok;
+		if (ok == 0 && verif_nondeterministic) {
+			/* timing-dependent harness: try the other cases that failed the same way */
+			for (int c = 0; c < groups[g].ncand && ok == 0; c++) {
+				if (groups[g].cand[c] == groups[g].index) continue;
+				n = get_case(groups[g].cand[c], best, verif_max_size);
+				for (int t = 0; t < 3; t++) ok += fails_same(best, n, NULL);
+				if (ok) groups[g].index = groups[g].cand[c];
+			}
+			if (ok == 0 && groups[g].count >= 5) {
+				/* many independent cases tripped the same oracle clause: not a fluke, report the first one */
+				n = get_case(groups[g].index, best, verif_max_size);
+				ok = -1;
+			}
+		}
+		groups[g].confirmed = ok < 0 ? 0 : ok;
 		if (ok == 0) { flaky++; continue; }
 		if (ok == 3 && !groups[g].hang) {
 			struct verif_report r; run_isolated(best, n, &r, 0);
